@@ -162,8 +162,10 @@ class MediaRequestBase(RequestHandlerBase):
                 mode, representation, timing, seg_num, seg_time)
             assert sn is not None
             seg_num = sn
-        except ValueError as err:
-            logging.warning('ValueError: %s', err)
+        except (ValueError, OverflowError) as err:
+            # OverflowError: a segment number or time that is too large to
+            # be converted into a timedelta
+            logging.warning('%s: %s', type(err).__name__, err)
             return flask.make_response('Not Found', 404)
 
         # checked once the segment number is known, so that a request by
